@@ -22,10 +22,11 @@
 namespace scn {
 
 enum { S_SPAWN_DISCARD = 0, S_SPAWN_AWAIT_SP, S_CALL_CHILD, S_PAUSE, S_RESOLVE_DISCARD, S_RESOLVE_AWAIT, S_AWAIT_FUT, S_LOCK, S_UNLOCK_DISCARD,
-       S_UNLOCK_AWAIT, S_PUSH_DISCARD, S_PUSH_AWAIT, S_POP, S_START_CHILD, S_JOIN_STARTED, S_CREATE_SP_DISCARD, S_CREATE_SP_AWAIT, S_NKINDS };
+       S_UNLOCK_AWAIT, S_PUSH_DISCARD, S_PUSH_AWAIT, S_POP, S_START_CHILD, S_JOIN_STARTED, S_CREATE_SP_DISCARD, S_CREATE_SP_AWAIT, S_NESTED_DRAIN, S_NKINDS };
 inline const char *sk_name(int k) {
     static const char *n[] = {"spawn", "co_await spawn", "co_await child()", "pause", "resolve", "co_await resolve", "await", "lock", "unlock", "co_await unlock",
-                              "push", "co_await push", "pop", "start() child", "join started child", "create_suspend_point(resolve)", "co_await create_suspend_point(resolve)"};
+                              "push", "co_await push", "pop", "start() child", "join started child", "create_suspend_point(resolve)", "co_await create_suspend_point(resolve)",
+                              "nested install_queue_and_call"};
     return n[k];
 }
 struct c5_step { int kind; int arg; };
@@ -92,6 +93,13 @@ inline cocls::async<void> c5_coro(c5_world &W, int cid) {
                     }
                     break;
                 }
+                case S_NESTED_DRAIN:
+                    // documented: with an active queue a nested activation is installed; everything queued is resumed and processed before
+                    // the call returns, and the caller is still in coroutine mode afterwards
+                    W.on_suspend(cid);
+                    cocls::coro_queue::install_queue_and_call([] {});
+                    W.on_resume(cid);
+                    break;
                 case S_PAUSE: W.on_suspend(cid); co_await cocls::pause(); W.on_resume(cid); break;
                 case S_RESOLVE_DISCARD: if (W.P[st.arg]) (*W.P[st.arg])(cid); break;
                 case S_RESOLVE_AWAIT: if (W.P[st.arg]) { cocls::suspend_point<bool> sp = (*W.P[st.arg])(cid); W.on_suspend(cid); co_await sp; W.on_resume(cid); } break;
@@ -154,6 +162,8 @@ struct c5_model {
     std::vector<int> transfer;              // coroutines delivered by an awaited suspend point / completion hand-over
     std::deque<std::vector<int>> queue;     // ready queue: groups in enqueue order
     std::vector<int> callstack;             // coroutines that are inside a nested start() call (they continue when the nested activation returns)
+    std::vector<bool> call_drains;          // per callstack entry: nested install_queue_and_call (returns when the queue is EMPTY) instead of
+                                            // start() (returns at the first plain suspension of the started chain)
     std::vector<int> pending_after_choice;  // group to append after the choice is known (awaiting coroutine re-queued last)
     std::vector<int> side;                  // delivered by a suspend point that ORDINARY code discarded: resumed one after the other by
                                             // that code, not through the ready queue - the statement does not order them against the queue
@@ -165,7 +175,7 @@ struct c5_model {
     int items = 0; std::deque<int> poppers;
     bool stopping = false;
     int ncoro = 0;
-    uint64_t switches = 0, queued_resumes = 0, transfers = 0, max_queue = 0;
+    uint64_t switches = 0, queued_resumes = 0, transfers = 0, max_queue = 0, nested_drains = 0;
     explicit c5_model(const c5_world &w) : W(w), C((size_t)c5_world::MAXC) {}
 
     void make_ready_group(const std::vector<int> &g) { if (g.empty()) return; for (int c : g) C[(size_t)c].state = 1; queue.push_back(g); size_t n = 0; for (auto &q : queue) n += q.size(); if (n > max_queue) max_queue = n; }
@@ -176,9 +186,10 @@ struct c5_model {
         pending_after_choice.clear();
         if (requeue_self >= 0) pending_after_choice.push_back(requeue_self);
         if (transfer.empty() && requeue_self >= 0) { make_ready_group({requeue_self}); pending_after_choice.clear(); }
-        if (transfer.empty() && requeue_self < 0 && !callstack.empty()) {
-            // plain suspension / completion without a waiting party inside a nested start(): the nested resume() returns to its caller
-            running = callstack.back(); callstack.pop_back();
+        if (transfer.empty() && requeue_self < 0 && !callstack.empty() && (!call_drains.back() || queue.empty())) {
+            // plain suspension / completion without a waiting party inside a nested start(): the nested resume() returns to its caller.
+            // Inside a nested install_queue_and_call the flush loop goes on with the front of the queue until the queue is empty.
+            running = callstack.back(); callstack.pop_back(); call_drains.pop_back();
             return;
         }
         running = (transfer.empty() && queue.empty() && side.empty()) ? NONE : CHOOSE;
@@ -284,9 +295,12 @@ struct c5_model {
             }
             case S_START_CHILD: {
                 int ch = spawn(st.arg);
-                if (ch >= 0) { x.started.push_back(ch); callstack.push_back(c); running = ch; C[(size_t)ch].state = 2; switches++; }
+                if (ch >= 0) { x.started.push_back(ch); callstack.push_back(c); call_drains.push_back(false); running = ch; C[(size_t)ch].state = 2; switches++; }
                 break;
             }
+            case S_NESTED_DRAIN:
+                if (!queue.empty()) { callstack.push_back(c); call_drains.push_back(true); transfer.clear(); pending_after_choice.clear(); running = CHOOSE; nested_drains++; }
+                break;
             case S_PAUSE: x.state = 1; yield_cpu({}, c); break;
             case S_CREATE_SP_DISCARD:
             case S_RESOLVE_DISCARD: if (!fut_resolved[st.arg]) { fut_resolved[st.arg] = true; std::vector<int> g = fut_wait[st.arg]; fut_wait[st.arg].clear(); make_ready_group(g); } break;
@@ -326,7 +340,8 @@ inline std::vector<c5_step> c5_random_script(vf::rng &r, int nscripts, int nsafe
         else if (x < 14) { if (nested_safe) continue; st.kind = S_SPAWN_AWAIT_SP; st.arg = (int)r.below((uint32_t)nscripts); }
         else if (x < 19) { if (nested_safe) continue; st.kind = S_CALL_CHILD; st.arg = (int)r.below((uint32_t)nscripts); }
         else if (x < 27 && nsafe > 0) { st.kind = S_START_CHILD; st.arg = nscripts + (int)r.below((uint32_t)nsafe); }
-        else if (x < 36) { if (nested_safe) continue; st.kind = S_PAUSE; }
+        else if (x < 34) { if (nested_safe) continue; st.kind = S_PAUSE; }
+        else if (x < 36) { if (nested_safe) continue; st.kind = S_NESTED_DRAIN; }
         else if (x < 42) { st.kind = S_RESOLVE_DISCARD; st.arg = (int)r.below(c5_world::NF); }
         else if (x < 45) { st.kind = nested_safe || r.chance(1, 2) ? S_CREATE_SP_DISCARD : S_CREATE_SP_AWAIT; st.arg = (int)r.below(c5_world::NF); }
         else if (x < 50) { if (nested_safe) continue; st.kind = S_RESOLVE_AWAIT; st.arg = (int)r.below(c5_world::NF); }
@@ -406,6 +421,7 @@ inline void scheduling_programs(const vf::opts &o, vf::report &R, uint64_t progr
         }
         R.cls("context_switches", M.switches); R.cls("resumed_from_ready_queue", M.queued_resumes); R.cls("direct_transfers", M.transfers);
         R.cls("coroutines", (uint64_t)W.ncoro); if (M.max_queue >= 3) R.cls("programs_with_3plus_queued");
+        if (M.nested_drains) R.cls("nested_install_queue_and_call_with_queued_coroutines", M.nested_drains);
         if (R.samples.size() < 3 && W.ncoro >= 4) R.sample(describe());
     }
 }
